@@ -210,3 +210,8 @@ CHECKS.append(Check("cli_blacklist", lambda tier: [dict(layout=[3, 2], kind="fix
                         "balance_cooler are exactly the bins overlapping it (fixed- and variable-width tables)",
                     bounds=dict(quick="<=5 bins, 2 chromosomes, interval bounds anywhere in the chromosome", thorough="<=8 bins, 3 chromosomes"),
                     stubs=("E6-like: the frame read_csv returns for the three BED columns is symbolic; the real side parses a real file", "E3", "E4")))
+
+MUTANTS += [
+    dict(name="blacklist interval end taken one base short", file="cli/balance.py", old="(reg.chrom, reg.start, reg.end))", new="(reg.chrom, reg.start, reg.end - 1))", checks=["cli_blacklist"]),
+    dict(name="blacklist interval looked up on the whole genome", file="cli/balance.py", old="(reg.chrom, reg.start, reg.end))", new="(reg.chrom, 0, reg.end))", checks=["cli_blacklist"]),
+]
